@@ -278,7 +278,14 @@ package lexer
 //@   ensures rulesOK(d) ==> slInv(result0.(*StatefulLexer))
 //@   ensures posInv(result0.(*StatefulLexer), s, filename) && result0.(*StatefulLexer).pos == Position{filename, 0, 1, 1}
 //@   ensures len(result0.(*StatefulLexer).stack) == 1 && result0.(*StatefulLexer).stack[0].name == "Root" && result0.(*StatefulLexer).def == d
+//@   ensures fresh(result0.(*StatefulLexer).stack) && result0.(*StatefulLexer).data == s [C09 C04 C15]
 //@   use emptyFacts() at exit
+
+// The reader entry point lexes exactly the bytes read, under the caller's filename (C15: Lex, LexString
+// and LexBytes agree; C04: offsets refer to the caller's input). What io.Copy delivers is trusted.
+//@ func (*StatefulDefinition).Lex [C15 C04]
+//@   let content string = result0 after call (*strings.Builder).String#1
+//@   before call (*lexer.StatefulDefinition).LexString#1: assert arg1 == filename && arg2 == content
 
 //@ func (*StatefulLexer).Next [C07 C04 C03 C06]
 //@   no-recursion [C06 C07]
